@@ -41,9 +41,11 @@ ASSUMPTIONS = [
     "type conditions are ignored by the untyped collection and by the specification alike (depth is an upper bound over all runtime types)",
 ]
 TRUSTED = [
-    "with C19-Q3.patch `_nesting_levels` is iterative (a frontier per level, identical selection sets of a level measured once): it is "
-    "modelled by the equivalent recursion `nestingLevelsG` with the same per-level budgets; the equivalence is exercised by the "
-    "correspondence (all streams, deep chains, the exponential-paths document), not proved",
+    "the loop of `_nesting_levels` is modelled AS WRITTEN (re-extracted shape: `levelFrontier` -> `nestingLevelsF`, a frontier of selection "
+    "lists per level; `levelMerged` -> `nestingLevelsM`, one list per level, proposed fix C19-H3; neither -> the recursive versions) and proved "
+    "equal to the recursive measure on acyclic documents (frontier_eq_recursive / merged_eq_recursive, ruleF_eq_ruleB / ruleM_eq_ruleB); not "
+    "modelled: the `id`-based de-duplication inside one level (`seen`), which drops an entry made of the same node objects as an earlier entry "
+    "of the level - argued result-transparent (same arguments, same outcome), exercised by every stream",
     "the Lean model of the rule is a pure function of (limit, filter, document, variables): that the implementation keeps no state "
     "between calls (instance, Document nodes, module) is checked by the history stream, not proved",
     "harness/corr/C19.py: conversion of the parsed py_gql AST into the minimal JSON document of Driver/C19.lean (checked on every "
@@ -1038,7 +1040,8 @@ def extract(ctx):
     budgeted = is_budgeted_tree()
     lenient = is_lenient_sf_tree()
     shared = is_shared_seen_tree()
-    merged = is_level_merged_tree()
+    loop = nesting_loop_shape()
+    merged, frontier = loop == "merged", loop == "frontier"
     return {"PyGqlModel/Generated/DepthVariant.lean": (
         "/- GENERATED by harness/corr/C19.py: extract() from src/py_gql/utilities/{max_depth,collect_fields}.py — do not edit. -/\n"
         "namespace PyGql.Generated.DepthVariant\n\n"
@@ -1052,21 +1055,24 @@ def extract(ctx):
         "def sharedSeen : Bool := %s\n\n"
         "/-- `_nesting_levels` keeps ONE list of selections per level (C19-H3.patch) instead of a frontier of merged sub-selection lists -/\n"
         "def levelMerged : Bool := %s\n\n"
-        "end PyGql.Generated.DepthVariant\n" % tuple("true" if x else "false" for x in (tolerant, budgeted, lenient, shared, merged)))}
+        "/-- `_nesting_levels` iterates level by level over a FRONTIER of selection lists (C19-Q3.patch: model `nestingLevelsF`); when both\n"
+        "    are false the function is one of the recursive versions (model `nestingLevelsG`) -/\n"
+        "def levelFrontier : Bool := %s\n\n"
+        "end PyGql.Generated.DepthVariant\n" % tuple("true" if x else "false" for x in (tolerant, budgeted, lenient, shared, merged, frontier)))}
 
 
-def is_level_merged_tree():
-    """shape of the loop of `_nesting_levels`: a `for ... in frontier` over a list of selection lists (today), or ONE list per level
+def nesting_loop_shape():
+    """"recursive" | "frontier" | "merged": shape of the loop of `_nesting_levels`: a `for ... in frontier` over a list of selection lists (today), or ONE list per level
        handed to `collect_fields_untyped` directly in the `while` body (C19-H3.patch: model `nestingLevelsM`)"""
     import ast as pyast
     from common import REPO
     tree = pyast.parse((REPO / "src/py_gql/utilities/max_depth.py").read_text())
     fn = [n for n in pyast.walk(tree) if isinstance(n, pyast.FunctionDef) and n.name == "_nesting_levels"]
     if not fn:
-        return False
+        return "recursive"
     loops = [n for n in pyast.walk(fn[0]) if isinstance(n, pyast.While)]
     if not loops:
-        return False                       # the recursive versions (before C19-Q3.patch)
+        return "recursive"                 # the recursive versions (before C19-Q3.patch)
     if len(loops) != 1:
         raise ValueError("_nesting_levels has an unknown shape (several while loops)")
     w = loops[0]
@@ -1079,12 +1085,12 @@ def is_level_merged_tree():
     if nested and not direct:
         if cond != "frontier" or pyast.unparse(nested[0].iter) != "frontier":
             raise ValueError("_nesting_levels iterates over an unknown frontier (%s)" % cond)
-        return False
+        return "frontier"
     if direct and not nested:
         call = collect_calls(direct[0])[0]
         if not call.args or pyast.unparse(call.args[0]) != cond:
             raise ValueError("_nesting_levels collects something else than the list its loop tests (%s)" % cond)
-        return True
+        return "merged"
     raise ValueError("_nesting_levels has an unknown shape (where collect_fields_untyped is called)")
 
 
